@@ -969,11 +969,13 @@ _CP05_SKIP = "                if seg.is_type(\n                    \"symbol\", \
 _CP05_SKIP_AND_CALL = _CP05_SKIP + "                res = self._handle_segment(seg, context)\n                if res:\n                    results.append(res)\n"
 _WORD_RX = "\"([^a-zA-Z0-9]+|^)([a-zA-Z0-9])([a-zA-Z0-9]*)\""
 
+SELFTEST_NEEDS_FILES = True  # R15d reads the dialect grammar through the front-end, which imports the tree from disk
+
 VARIANTS = [
     Variant(
         "quoted-warehouse-sizes-become-keywords", "src/sqlfluff/dialects/dialect_snowflake.py",
-        '            CodeSegment,\n            type="warehouse_size",\n        ),\n    ),\n',
-        '            KeywordSegment,\n            type="warehouse_size",\n        ),\n    ),\n',
+        '            [f"\'{size}\'" for size in snowflake_dialect.sets("warehouse_sizes")],\n            CodeSegment,\n',
+        '            [f"\'{size}\'" for size in snowflake_dialect.sets("warehouse_sizes")],\n            KeywordSegment,\n',
         "R15d", None, "seeded C15-6 (the quoted form only): `WAREHOUSE_SIZE = 'x-large'` is re-cased",
     ),
     Variant(
